@@ -490,6 +490,11 @@ def corrupt_cases(draw, prof):
     return {"desc": desc, "corrupt": {"owner": "tt", "add": ("foo", "bar")}, "class": "unknown-attribute"}
   # classes first so that rare ones are not drowned by the many time / style attributes
   classes = sorted({c[2] for c in cands})
+  # the parameters on tt decide how every time expression and length of the document is read: a quarter of the cases corrupt one of them
+  # when there is one (seeded change C04-20: a malformed ttp:frameRate still setting the default tick rate)
+  tt_classes = sorted({c[2] for c in cands if c[0] == "tt" and c[1] in ("fps", "frm", "tick")})
+  if tt_classes and draw(st.integers(0, 3)) == 0:
+    classes = tt_classes
   cls = classes[(mix + draw(st.integers(0, 63))) % len(classes)]
   pool = [c for c in cands if c[2] == cls]
   start = (mix // 64 + draw(st.integers(0, 15))) % len(pool)
